@@ -51,7 +51,8 @@ def report (s : St) (k : Nat) : List String := Id.run do
     | none => out := out ++ ["best none"]
     | some (x, sc, chain) =>
       out := out ++ [s!"best {L.links.idxOf x} {sc} " ++ sepBy " " (chain.map fun l => toString (L.links.idxOf l))]
-    let rem := remTable L
+    let T := remLevel L (L.nframes + 2)
+    let rem := fun v => T.getD v worstScore
     out := out ++ ["rem " ++ sepBy " " ((List.range L.n).map fun v => toString (rem v))]
     let nb := nbest L k
     out := out ++ [s!"nbest {nb.length}"]
